@@ -185,6 +185,9 @@ def one_step(rec, lab, ncalls, case):
     from lib.findlab import filter_is_unspecified, last_index
     rng = lab.rng
     lab.finders["list_legacy"] = legacy_finder(lab)
+    from spil import FindInList
+    # raw file lines (unstripped) with do_strip=True: Sid and string forms must still agree
+    lab.finders["list_strip"] = FindInList([e + rng.choice(["\n", " ", "\r\n", ""]) for e in lab.list], do_strip=True)
     for k in range(ncalls):
         s, info = lab.search(allow_last=(rng.random() < 0.15))
         if filter_is_unspecified(s):
@@ -226,7 +229,7 @@ def worker(args):
     if "replay" in args:
         c = args["replay"]
         rec.ev()
-        lab.new_universe(ents=c["ents"], names=c.get("names"))
+        lab.new_universe(ents=c["ents"], names=c.get("names"), only_default=c.get("only_default"))
         for e in c.get("created", []):
             for cfg in lab.configs:
                 try:
@@ -249,7 +252,7 @@ def worker(args):
         created = []
         steps = rng.randint(1, 5)
         for step in range(steps):
-            case = {"ents": ents, "names": lab.names, "uid": uid, "step": step, "created": list(created)}
+            case = {"ents": ents, "names": lab.names, "only_default": lab.only_default, "uid": uid, "step": step, "created": list(created)}
             one_step(rec, lab, max(2, args["calls"] // steps), case)
             # create a new entity (through the real writer) in every configuration
             for _ in range(rng.randint(1, 2)):
@@ -271,7 +274,7 @@ def worker(args):
                     created.append(e)
                     lab.refresh_exists([e])
                     lab.finders["list"] = FindInList(list(lab.list))
-        case = {"ents": ents, "names": lab.names, "uid": uid, "step": steps, "created": list(created)}
+        case = {"ents": ents, "names": lab.names, "only_default": lab.only_default, "uid": uid, "step": steps, "created": list(created)}
         one_step(rec, lab, max(2, args["calls"] // steps), case)
         if u == 0:
             rec.sample({"entities": ents[:5], "created": created, "steps": steps})
